@@ -81,7 +81,9 @@ CLAIMS["C05"] = {
             "is never blocked (C05_loop_never_blocked), the states without an enabled action characterised (C05_stuck_iff), no deadlock while a reading half-stream has anything left "
             "(C05_no_deadlock), every execution finite, and C05_closed_completes / C05_outcome: every maximal execution ends with every reading half-stream complete and its window "
             "restored and every stalled one parked behind exactly min(total, W) unread bytes - independent of the schedule and equal to the executable scheduler's answer; counter-model: "
-            "a receive loop that sends deadlocks with K=1 (C05_loop_that_sends_deadlocks). Tied to the code by the bounded-carrier world (real client + real server over Go channels of "
+            "a receive loop that sends deadlocks with K=1 (C05_loop_that_sends_deadlocks). The two models are LINKED by a stuttering simulation (Lemmas/Refine.lean): every execution of the atomic-action "
+            "model maps action by action onto an execution of the closed model - each atomic action is invisible at frame level or is exactly one frame-level action (C05_atomic_refines_closed, "
+            "C05_atomic_step_refines), and a completed atomic execution is a maximal frame-level one with the same outcome (C05_final_agrees). Tied to the code by the bounded-carrier world (real client + real server over Go channels of "
             "capacity 1..64, free-running, stalled applications) whose per-half-stream byte counts are compared with the model's outcome, and by the sender-stranded monitor rule on every "
             "line of the S-, C- and W1 worlds.",
     "design_ref": "DESIGN.md A2 (C05)",
